@@ -47,6 +47,10 @@ CHECKS = {
          "Source texts (all repo .lisp files, random token trees with comments/blank lines/tabs/CRLF in every gap incl. inside prefix forms and before closing brackets, every literal spelling and bracket kind, 16 token-level mutations) are formatted under the CLI default config, random indent/blank-line/rules configs, compact+strip, and strip or compact alone; strict parses of input and output must be identical node by node, an independently read token tree must match in spellings and bracket kinds, every comment must survive in order anchored to the same tree path, Format(Format(x)) must equal Format(x) byte for byte, and rejected input must yield an error and zero bytes.",
          "The documented re-sugaring of #' / #^ and hoisting of comments out of a prefix gap are treated as allowed normalisations; layout is judged only through idempotence; violations are shrunk and keyed by the minimised input's class (notes/NOTES-C16.md).",
          "DESIGN.md 4/C16"),
+ "C19": ("exploration", "differential runtime monitor: the real linter (the three configurations cmd/lint.go can produce) against the real evaluator's argument binder on generated one-call sources; largely exhaustive",
+         "Exhaustive: every name in the default registry enumerated at run time (135 core names + 112 stdlib functions) x k = 0..max+2 arguments (bare and lisp:-qualified, keyword tails for &key), all 72 defun formals lists x k = 0..6, and 31 shadowing context shapes x 9 builtin names x 6 shadow values x k = 0..4; plus sampled variants under wrappers. A call is 'reported' when builtin-arity / if-arity / user-arity flags the call form; it 'fails binding' when evaluation ends in one of the binder's errors with the callee on top of the error's call stack; which binding a call reaches is decided by evaluating (probe in the shadow body, control run).",
+         "Binding failure is recognised by the binder's message classes and the error's call stack; &key signatures and stdlib names are judged in one direction only; local functions that fail binding owe no report (notes/NOTES-C19.md).",
+         "DESIGN.md 4/C19"),
 }
 
 ALL = ["C%02d" % i for i in range(1, 21)]
@@ -67,6 +71,7 @@ def main():
         if cid not in CHECKS:
             continue
         cat, tech, text, note, ref = CHECKS[cid]
+        exh = cid in ("C19",)
         checks.append({
             "property_id": cid,
             "quick_cmd": "./check %s --tier quick" % cid,
